@@ -534,4 +534,27 @@ theorem stepOK_native (N : Nat) (Dom : Asg → Prop) (d : Def) (hres : d.res < N
     show y' d.res = d.f.val y'
     rw [hag d.res hres, val_congr d.f y' y (fun v hv => hag v (hvars v hv))]; exact h
 
+
+/-! ## the executable validator is sound -/
+
+theorem ctxGaps_sound (B : Bnds) (defs : List Def) (roots : List Root) (h : ctxGaps B defs roots = []) :
+    CtxCovers B defs roots := by
+  have hf : ∀ p ∈ ctxUses B defs roots, p.2 ≤ (ctxOf defs p.1).eff := by
+    intro p hp
+    simp only [ctxGaps, List.map_eq_nil_iff, List.filter_eq_nil_iff] at h
+    have := h p hp
+    simpa using this
+  constructor
+  · intro r hr p hp
+    exact hf p (by simp only [ctxUses, List.mem_append, List.mem_flatMap]; exact Or.inl ⟨r, hr, hp⟩)
+  · intro d hd p hp
+    exact hf p (by simp only [ctxUses, List.mem_append, List.mem_flatMap]; exact Or.inr ⟨d, hd, hp⟩)
+
+theorem wfB_sound (m : Nat) (defs : List Def) (h : wfB m defs = true) : WF m defs := by
+  induction defs generalizing m with
+  | nil => trivial
+  | cons d ds ih =>
+    simp only [wfB, Bool.and_eq_true, decide_eq_true_eq, List.all_eq_true] at h
+    exact ⟨h.1.1, fun v hv => h.1.2 v hv, ih (d.res + 1) h.2⟩
+
 end MpVerif.C01
